@@ -1,0 +1,76 @@
+//go:build verif
+
+package quickfix
+
+// Read-only access to unexported codec internals for the /verif correspondence harness (area codec).
+// Add-only; never compiled into a normal build.
+
+// VerifTV is an exported copy of a TagValue.
+type VerifTV struct {
+	Tag   int
+	Value []byte
+	Bytes []byte
+}
+
+func verifTV(tv TagValue) VerifTV { return VerifTV{Tag: int(tv.tag), Value: tv.value, Bytes: tv.bytes} }
+
+// VerifFields returns a copy of Message.fields (the pre-sized field array of the last parse).
+func VerifFields(m *Message) []VerifTV {
+	out := make([]VerifTV, len(m.fields))
+	for i, tv := range m.fields {
+		out[i] = verifTV(tv)
+	}
+	return out
+}
+
+// VerifBodyBytes returns Message.bodyBytes.
+func VerifBodyBytes(m *Message) []byte { return m.bodyBytes }
+
+// VerifHasRaw reports whether Message.rawMessage is set.
+func VerifHasRaw(m *Message) bool { return m.rawMessage != nil }
+
+// VerifEntries returns the contents of FieldMap.tagLookup.
+func VerifEntries(fm *FieldMap) map[int][]VerifTV {
+	fm.rwLock.RLock()
+	defer fm.rwLock.RUnlock()
+	out := make(map[int][]VerifTV, len(fm.tagLookup))
+	for t, f := range fm.tagLookup {
+		tvs := make([]VerifTV, len(f))
+		for i, tv := range f {
+			tvs[i] = verifTV(tv)
+		}
+		out[int(t)] = tvs
+	}
+	return out
+}
+
+// VerifTags returns a copy of FieldMap.tags (the ordered tag list).
+func VerifTags(fm *FieldMap) []int {
+	fm.rwLock.RLock()
+	defer fm.rwLock.RUnlock()
+	out := make([]int, len(fm.tags))
+	for i, t := range fm.tags {
+		out[i] = int(t)
+	}
+	return out
+}
+
+// VerifTagValueParse runs TagValue.parse on raw and returns the result.
+func VerifTagValueParse(raw []byte) (VerifTV, error) {
+	var tv TagValue
+	err := tv.parse(raw)
+	return verifTV(tv), err
+}
+
+// VerifTagValueInit runs TagValue.init.
+func VerifTagValueInit(tag int, value []byte) VerifTV {
+	var tv TagValue
+	tv.init(Tag(tag), value)
+	return verifTV(tv)
+}
+
+// VerifBuildWithBodyBytes runs Message.buildWithBodyBytes.
+func VerifBuildWithBodyBytes(m *Message, body []byte) []byte { return m.buildWithBodyBytes(body) }
+
+// VerifReverseRoute runs Message.reverseRoute.
+func VerifReverseRoute(m *Message) *Message { return m.reverseRoute() }
